@@ -90,7 +90,9 @@ class Check:
         for f in os.listdir(rd):
             if f.endswith('.json'):
                 os.unlink(os.path.join(rd, f))
-        for i, v in enumerate(new):
+        if len(new) > 30:
+            print('%s: %d distinct new violations; the first 30 are written out' % (self.pid, len(new)))
+        for i, v in enumerate(new[:30]):
             p = os.path.join(rd, '%s-%d.json' % (re.sub(r'[^A-Za-z0-9.]+', '_', v['rule']), i + 1))
             with open(p, 'w') as fh:
                 json.dump({'property': self.pid, 'rule': v['rule'], 'rule_text': self.rules[v['rule']]['desc'],
